@@ -4,6 +4,7 @@
 -/
 import Nuts.Driver.Common
 import Nuts.Model.Tx
+import Nuts.Driver.DBSpec
 namespace Nuts.Driver.DBSuite
 open Nuts Nuts.Driver
 open Nuts.Model Nuts.Model.DB
@@ -11,6 +12,7 @@ open Nuts.Model Nuts.Model.DB
 structure St where
   db : State := {}
   tx : Option Tx := none
+  sp : DBSpec.SpecSt := {}
   deriving Inhabited
 
 def showRec (o : Option Rec) : String :=
@@ -73,7 +75,7 @@ def unitOut (o : Outcome Unit) : String := showOutcome (fun _ => "") o
 /-- result class used in coverage cells -/
 def cls (s : String) : String := resClass s
 
-def step (st : St) (cmd : String) (impl : String) : St × Verdict :=
+def stepModel (st : St) (cmd : String) (impl : String) : St × Verdict :=
   let f := words cmd
   let op := f.headD ""
   let a (i : Nat) : String := f.getD i "-"
@@ -90,8 +92,8 @@ def step (st : St) (cmd : String) (impl : String) : St × Verdict :=
     let opt : Opts := { mode := N 1, rw := N 2, startRw := N 3, sync := N 4 == 1, seg := N 5 }
     let (s', o) := openDB opt s.files
     match o with
-    | .ok _ => ({ db := s', tx := none }, v "ok" s!"open/{c}")
-    | _ => ({ db := { s with opt := opt, opened := false }, tx := none }, v (unitOut o) s!"open/{c}")
+    | .ok _ => ({ st with db := s', tx := none }, v "ok" s!"open/{c}")
+    | _ => ({ st with db := { s with opt := opt, opened := false }, tx := none }, v (unitOut o) s!"open/{c}")
   | "begin" =>
     if s.closed || !s.opened then (st, v "err" s!"begin/{c}")
     else
@@ -105,7 +107,7 @@ def step (st : St) (cmd : String) (impl : String) : St × Verdict :=
       if t.closed then (st, v "err" "commit/closed")
       else
         let (s', o) := if t.writable then commit s t.pending else (s, .ok ())
-        ({ db := s', tx := some { t with closed := true, pending := [] } }, v (unitOut o) s!"commit/{c}/{t.pending.length}")
+        ({ st with db := s', tx := some { t with closed := true, pending := [] } }, v (unitOut o) s!"commit/{c}/{t.pending.length}")
   | "rollback" =>
     match st.tx with
     | none => (st, v "err" "rollback/none")
@@ -277,10 +279,7 @@ def step (st : St) (cmd : String) (impl : String) : St × Verdict :=
     | some z =>
       let r := ZSetA.rankOf z k
       let want := if op == "zrank" then r else (if z.isEmpty || r == 0 then 0 else z.length - r + 1)
-      -- FindRank("") may stop at the header (layout dependent): 0 (resp. size+1) is the other possible answer
-      let alt := if op == "zrank" then 0 else z.length + 1
-      if k.isEmpty && r != 0 && impl == s!"ok {alt}" then (st, v impl s!"{op}/emptykey" "finding:D-ZRANK-EMPTYKEY")
-      else (st, v s!"ok {want}" s!"{op}/{c}" (if k.isEmpty && r != 0 then "finding:D-ZRANK-EMPTYKEY" else "in-guard"))
+      (st, v s!"ok {want}" s!"{op}/{c}")
   | "zscore" =>
     let o : Outcome Int := if t.closed then .err else match zsetOf s (B 1) with
       | none => .err
@@ -296,5 +295,26 @@ def step (st : St) (cmd : String) (impl : String) : St × Verdict :=
         | none => .err
     (st, v (showOutcome showNode o) s!"zgetbykey/{c}")
   | _ => (st, v "bad-op" "bad-op")
+
+/-- model step, then the spec's judgement of the implementation's answer and the guard tag -/
+def step (st : St) (cmd : String) (impl : String) : St × Verdict :=
+  let (st1, vm) := stepModel st cmd impl
+  let out := DBSpec.step st.sp st.db cmd impl
+  let taints := match out.taint with
+    | some t => if out.st.taints.contains t then out.st.taints else t :: out.st.taints
+    | none => out.st.taints
+  let sp1 := { out.st with taints := taints }
+  let specOk := out.expect.map fun e => e.accepts impl
+  -- a tag set by the model side (layout-dependent answers) is kept
+  let tag := if vm.tag != "in-guard" then vm.tag
+    else match out.taint with
+      | some t => "finding:" ++ t
+      | none => if specOk == some false then (match taints with | t :: _ => "finding:" ++ t | [] => "in-guard") else "in-guard"
+  -- after an explained divergence the spec continues from the abstraction of the model state
+  let op := (words cmd).headD ""
+  let resync := specOk == some false && tag != "in-guard" && vm.model == impl &&
+    (op == "obs" || op == "open" || op == "commit" || op == "rollback" || op == "merge")
+  let sp2 := if resync then { sp1 with committed := DBSpec.abs st1.db } else sp1
+  ({ st1 with sp := sp2 }, { vm with specOk := specOk, spec := (out.expect.map (·.want)).getD "", tag := tag })
 
 end Nuts.Driver.DBSuite
